@@ -879,7 +879,8 @@ def apply_op(t, x, op):
             o = opts[sel] if -len(opts) <= sel else None
             x.change(selector=sel, value=(None if o in (None, 'none') else elem_arg(o, op[2])))
         elif sel < len(opts) and opts[sel] != 'none':
-            x.change(selector=sel, value=elem_arg(opts[sel], op[2]))
+            # (`none` as the value of a typed option: None itself is passed — only the constructor may default it)
+            x.change(selector=sel, value=None if op[2] == 'none' else elem_arg(opts[sel], op[2]))
         elif sel < len(opts) and op[2] != 'none':
             x.change(selector=sel, value=mk_val_any(op[2]))
         else:
@@ -1104,6 +1105,11 @@ def run_dec(t, pre, body, post):
             return sh(y.get_backing(), [400])
         put('p.shape', E(shape))
 
+    def eqcontent():
+        z = mk_val(t, parse(to_val(t, y)))
+        return '%d%d%d' % (int(y == z), int(y.hash_tree_root() == z.hash_tree_root()), int(hash(y) == hash(z)))
+    put('p.eqcontent', E(eqcontent))
+
     def redec():
         # every decoded result is the caller's to mutate: mutate it (and some of its sub-values), decode the input again
         first = to_val(t, y)
@@ -1317,10 +1323,13 @@ def run_tree(tr, cmds):
             from remerkleable.history import get_target_history
             g = int(c[1])
             trees = [n] + [mk_tree(x) for x in c[2:]]
-            hist = list(enumerate(trees))
+            # (the keys are labels, not positions: here they DESCEND along the series; the output maps them back)
+            labels = [1000 - 3 * i_ for i_ in range(len(trees))]
+            back = {lab: i_ for i_, lab in enumerate(labels)}
+            hist = list(zip(labels, trees))
 
             def hq(h, gi):
-                return EC(lambda: ','.join('%d:%s' % (key, hexr(x)) for key, x in get_target_history(h, gi)))
+                return EC(lambda: ','.join('%d:%s' % (back[key], hexr(x)) for key, x in get_target_history(h, gi)))
             r1 = hq(list(hist), g)
             # the SAME history list queried for other positions first, then for g again: the answer does not depend on
             # earlier queries
